@@ -258,7 +258,7 @@ class HessianMatrix:
         positions = self.snapshot.positions
 
         # define hessian matrix prefactor based on particle type
-        prefactor = np.zeros_like(self.epsilons)
+        prefactor = np.zeros_like(self.epsilons, dtype=np.float64)
         for i in range(self.epsilons.shape[0]):
             for j in range(self.epsilons.shape[1]):
                 prefactor[i, j] = 1.0 / \
